@@ -18,19 +18,23 @@ MAJORS = [0, 1, 2, 3, 4, 2 ** 32 - 1]
 ORDERS = ["H", "HC", "CH", "HHC", "C", "HCC"]
 
 
-def mk_story(major, nk, expect, login, invpw, order, together, password):
+def mk_story(major, nk, expect, login, invpw, order, together, password, tail=None):
     hello = H(HELLO, major=major, nk=nk)
     cr = H(CONNECT, ip=invpw)
     frames = [hello if ch == "H" else cr for ch in order]
     sc = connfamily.connect_prefix(login)
-    if together:
+    if tail:
+        # the refusing device drops the connection at once: the close is handled before the connect task has resumed
+        sc += [("hop", 0, ("data", frames)), ("hop", 0, (tail,) if tail == "eof" else ("lost", "R.Reset"))]
+    elif together:
         sc.append(("data", frames))
     else:
         for f in frames:
             sc += [("data", [f]), ("drain",)]
     sc += [("drain",), ("adv_next",), ("drain",), ("adv_next",), ("drain",)]
     return {"scenario": sc, "expect": bool(expect), "scripts": {}, "keepalive": 20480, "login": bool(login), "password": password,
-            "case": dict(major=major, name=nk, expect=expect, login=login, invalid_password=invpw, order=order, together=together, password=password)}
+            "case": dict(major=major, name=nk, expect=expect, login=login, invalid_password=invpw, order=order, together=together, password=password,
+                         **({"tail": tail} if tail else {}))}
 
 
 NAMES = {"e": "", "x": "dev", "o": "other-device", "p": "dev2", "q": "de", "c": "DEV", "-": None}
@@ -165,6 +169,40 @@ async def noise_case(loop, case):
     return out, state, stops
 
 
+async def client_attempts_case(loop, names, expected):
+    """Consecutive plaintext connect attempts of one APIClient against devices announcing `names`."""
+    from aioesphomeapi import api_pb2 as pb
+    from aioesphomeapi.client import APIClient
+    net = simnet.Net(loop)
+    outs, reads = [], []
+    with net.patched():
+        cli = APIClient("10.0.0.1", 6053, None, expected_name=expected)
+        for name in names:
+            try:
+                await cli.start_connection()
+                task = asyncio.ensure_future(cli.finish_connection(login=False))
+                await simnet.drain(loop)
+                tr = net.transports[-1]
+                tr.feed(simnet.plain_msg(pb.HelloResponse(api_version_major=1, api_version_minor=10, name=name)))
+                await simnet.drain(loop)
+                if not task.done():
+                    task.cancel()
+                    outs.append("pending")
+                elif task.exception() is None:
+                    outs.append("ok")
+                else:
+                    outs.append(conntrace.exc_name(task.exception()))
+            except Exception as e:  # noqa: BLE001
+                outs.append(conntrace.exc_name(e))
+            reads.append(cli.expected_name)
+            try:
+                await cli.disconnect(force=True)
+            except Exception:  # noqa: BLE001
+                pass
+            await simnet.drain(loop)
+    return outs, reads
+
+
 def noise_oracle(case):
     # the server hello name is checked by the frame helper first (if a name is announced), then the HelloResponse
     if case["server_name"] not in ("-",) and case["expect"] and case["server_name"] != "x":
@@ -178,7 +216,7 @@ def run(rep, tier, seed):
     connfamily.N_REG = connfamily.n_registered()
     rep.coverage["rule"] = (
         "plaintext: majors {0,1,2,3,4,2^32-1} x names {empty, expected, other, expected+suffix, strict prefix of expected, other case} x expected-name on/off x login on/off x password verdict x response orders "
-        "{H,HC,CH,HHC,C,HCC} x {one chunk, separate chunks} x password set/unset (exhaustive in thorough, sampled in quick), each run on the real "
+        "{H,HC,CH,HHC,C,HCC} x {one chunk, separate chunks} x password set/unset (exhaustive in thorough, sampled in quick), refusals followed in the same turn by EOF / reset, each run on the real "
         "APIConnection with trace validation against Model/Conn.v; noise: server-hello name {absent, empty, expected, other, expected+suffix, prefix, other case} x HelloResponse name x "
         "expected-name x login x verdict x majors {1,3} over real Noise sessions with an independent responder; non-trivial = the device must be rejected; "
         "distinct by case tuple")
@@ -189,6 +227,11 @@ def run(rep, tier, seed):
     cases = [mk_story(*c) for c in itertools.product(MAJORS, "exopqc", (0, 1), (0, 1), (0, 1), ORDERS, (1, 0), (None, "pw"))]
     if tier == "quick":
         cases = rng.sample(cases, 500)
+    # refusals followed at once by the loss of the connection: the specific error still is what connect raises
+    tails = [mk_story(*c, tail=t) for t in ("eof", "lost")
+             for c in itertools.product((1, 3), "xo", (0, 1), (0, 1), (0, 1), ("H", "HC"), (1,), (None, "pw"))]
+    tails = [st for st in tails if oracle(st["case"])[0] == "err" and oracle(st["case"])[1] in ("L.Conn", "L.BadName", "L.InvalidAuth")]
+    cases += tails if tier == "thorough" else rng.sample(tails, min(len(tails), 40))
     disagreements = []
     B = 400
     for off in range(0, len(cases), B):
@@ -234,6 +277,19 @@ def run(rep, tier, seed):
                 rep.violation("C06/not-closed", f"{where}: state {state}, stop calls {stops}", replay)
         else:
             judge(rep, dict(case, order="HC" if case["login"] else "H"), out, state, stops, where, replay)
+    # ---- consecutive attempts of ONE APIClient: every attempt is judged by the configured name alone, whatever earlier attempts met
+    for names, expected in ((["other-device", "other-device"], "dev"), (["other-device", "dev", "other-device"], "dev"), (["dev", "DEV"], "dev"),
+                            (["dev", "other-device"], None), (["other-device", "dev"], None), (["dev2", "dev2", "dev"], "dev")):
+        outs, reads = simnet.run(lambda loop: client_attempts_case(loop, names, expected))
+        want = ["ok" if (expected is None or n == expected) else "L.BadName" for n in names]
+        rep.case(("client-attempts", tuple(names), expected), nontrivial="L.BadName" in want, sample={"client_attempts": names, "expected_name": expected, "outcomes": outs})
+        rep.bump("client-attempts")
+        replay = {"kind": "impl-case", "transport": "plaintext", "variant": "client-attempts", "names": names, "expected": expected}
+        if outs != want:
+            rep.violation("C06/name-rule-across-attempts", f"one APIClient (expected_name={expected!r}), consecutive attempts against devices named {names}: outcomes {outs}, "
+                          f"the name rule gives {want}", replay)
+        elif any(r != expected for r in reads):
+            rep.violation("C06/expected-name-changed", f"APIClient.expected_name configured as {expected!r} reads {reads} after the attempts against {names}", replay)
     rep.coverage["disagreements"] = len(disagreements)
     if disagreements and not rep.violations:
         rep.violations.append(("C06/correspondence", "Model/Conn.v and the real APIConnection disagree on a hello/login story; no violation of C06 found",
